@@ -28,6 +28,11 @@ def handle (line : String) : String :=
         | .ok (v, s) => s!"ok:{v}:{hex16 s}" | .error e => errName e
       s!"verifyDump={a} check={b}"
     | none => "badcase"
+  | ["ldfile", _cfg, n, c, t] =>
+    -- a whole file through utils.NewRDBLoader: whatever the configuration, the tool goes on iff the footer verifies
+    match ofHex c, ofHex t with
+    | some cov, some tr => if tr.length == 8 && footerOk cov tr then s!"accept {n}" else "abort"
+    | _, _ => "badcase"
   | ["footer", c, t] =>
     match ofHex c, ofHex t with
     | some cov, some tr =>
